@@ -365,8 +365,8 @@ package input
 //@   ensures [accept_complete @b] (forall a string :: a in m.Imports ==> matches(a, regexMetaImportAlias) && matches(m.Imports[a], regexMetaImport)) ==> result == nil
 //@   loop 1
 //@     invariant [nonnil] forall j int :: 0 <= j && j < len(errs) ==> errs[j] != nil
-//@     invariant [a @a] len(errs) == 0 ==> (forall a string :: a in visited ==> matches(a, regexMetaImportAlias) && matches(m.Imports[a], regexMetaImport))
-//@     invariant [b @b] (forall a string :: a in visited ==> matches(a, regexMetaImportAlias) && matches(m.Imports[a], regexMetaImport)) ==> len(errs) == 0
+//@     invariant [a @a] len(errs) == 0 ==> (forall q int :: 0 <= q && q < $i ==> matches(maps.Keys(m.Imports)[q], regexMetaImportAlias) && matches(m.Imports[maps.Keys(m.Imports)[q]], regexMetaImport))
+//@     invariant [b @b] (forall q int :: 0 <= q && q < $i ==> matches(maps.Keys(m.Imports)[q], regexMetaImportAlias) && matches(m.Imports[maps.Keys(m.Imports)[q]], regexMetaImport)) ==> len(errs) == 0
 
 //@ func ValidateMetaFunctions pure
 //@   property C11
@@ -374,8 +374,8 @@ package input
 //@   ensures [accept_complete @b] (forall f string :: f in m.Functions ==> matches(f, regexMetaFn) && matches(m.Functions[f], regexMetaGoFn)) ==> result == nil
 //@   loop 1
 //@     invariant [nonnil] forall j int :: 0 <= j && j < len(errs) ==> errs[j] != nil
-//@     invariant [a @a] len(errs) == 0 ==> (forall f string :: f in visited ==> matches(f, regexMetaFn) && matches(m.Functions[f], regexMetaGoFn))
-//@     invariant [b @b] (forall f string :: f in visited ==> matches(f, regexMetaFn) && matches(m.Functions[f], regexMetaGoFn)) ==> len(errs) == 0
+//@     invariant [a @a] len(errs) == 0 ==> (forall q int :: 0 <= q && q < $i ==> matches(maps.Keys(m.Functions)[q], regexMetaFn) && matches(m.Functions[maps.Keys(m.Functions)[q]], regexMetaGoFn))
+//@     invariant [b @b] (forall q int :: 0 <= q && q < $i ==> matches(maps.Keys(m.Functions)[q], regexMetaFn) && matches(m.Functions[maps.Keys(m.Functions)[q]], regexMetaGoFn)) ==> len(errs) == 0
 
 // reservedGetters holds exactly the exported method names of *container.Container (init#2, by reflection; A10).
 //@ global_assumed [reserved_getters C13 C11] reservedGetters != nil && (forall n string :: n in reservedGetters ==> reservedGetters[n])
